@@ -108,6 +108,13 @@ def proto_instances(tier):
                 add("inflight_p%d_b%d_r%d_t%d" % (pre, batch, runs, tmd), 8, "inflight_writer::<%d, %d>(%d, %d)" % (pre, batch, tmd, runs), ["C06", "C19", "C07"],
                     {"items_before": pre, "batch_in_flight": batch, "run_completes_before_publication_of_item(bitmask)": runs,
                      "timed_lock_outcomes(base3)": tmd, "pattern": "empty"})
+    # C06 with a non-empty pattern: the parallel scan records in-flight slots in chunk order
+    # (calibrated and dropped: with a non-empty pattern - real parser, real matcher scratch in the heap -
+    # CBMC exhausts the memory cap during symbolic execution; the scenario source is kept in proto_h.rs)
+    for split, rf in []:
+        for sp in ([0] if q else [0, 1]):
+            add("inflight_order_s%d_%s_p%d" % (split, "rf" if rf else "lf", sp), 8, "inflight_order(%d, %s, %d)" % (split, str(rf).lower(), sp), ["C06", "C19"],
+                {"in_flight_slots": 2, "published_items": 1, "pattern": "non-empty ('a'), then edited", "parallel_scan_chunks": "split at %d, %s chunk first" % (split, "right" if rf else "left")})
     # C12: restart
     for o, nw in ([(1, 1)] if q else [(0, 1), (1, 0), (1, 1), (2, 1), (1, 2)]):
         for rb in (False, True):
